@@ -27,6 +27,8 @@ def main():
 
     tls = {}
     datas = {}
+    optobjs = {}
+    share_opts = {int(k): v for k, v in (h.get("share_options") or {}).items()}
     share = {int(k): v for k, v in (h.get("share_data") or {}).items()}
     out = {"exports": [], "interference": [], "events": {}}
     for i, op in enumerate(h["ops"]):
@@ -37,6 +39,9 @@ def main():
                 if k in share and share[k] in datas:
                     data = datas[share[k]]  # the very dict objects another timeline was given (equal values by construction)
                 datas[k] = data
+                if k in share_opts and share_opts[k] in optobjs:
+                    options = optobjs[share_opts[k]]  # the very options dict object another timeline was constructed with
+                optobjs[k] = options
                 cls = TimelineSVG if h["backends"][k] == "svg" else TimelineTex
                 tls[k] = cls(data, options=options) if options is not None else cls(data)
             else:
